@@ -135,6 +135,13 @@ def check(ctx) -> Result:
     calls = sorted([(c.lineno, src(c.args[0])) for c in walk_no_nested(cc.node) if isinstance(c, ast.Call) and src(c.func) == "circ.add"])
     seq = ["INPUT" if "INPUT_MAPPING" in s else "BASE" if "base_circuit" in s else "MEAS" if "MEASUREMENT_MAPPING" in s else "?" for _, s in calls]
     res.add(seq == ["INPUT", "BASE", "MEAS"], "I-experiment-structure", "order", cc.site(), cc.qualname, "preparation, process, measurement - in that order", f"experiment circuit is assembled in the order {seq}", construct=str(seq))
+    # nothing is carried over between process() calls
+    from ..rules import rf_cache
+    for rel_, cn_ in ((LI, "LIProcessTomography"), (GF, "GateFidelity")):
+        ci_ = ctx.ix.module(rel_).classes.get(cn_)
+        if ci_ is None or "process" not in ci_.methods:
+            raise AnalysisError(f"{cn_}.process not found")
+        rf_cache.f3_result_fields(ctx, res, ci_, ci_.methods["process"])
     n = rc_owner.c1_fields(ctx, res, [PTc])
     res.floor("held base circuit", n, 1)
     return res
